@@ -197,6 +197,18 @@ CHECKS = {
         "Helper bodies are closed over parameters and other helpers; sample element has int/float/sequence members.",
         "DESIGN.md section 4, C05",
     ),
+    "C06": (
+        "Hypothesis typed-grammar generation of lambdas with (nested) comprehensions / generator expressions x 3 lowering routes x "
+        "datasets, plus bounded-exhaustive enumeration of dataclass/NamedTuple constructor bindings; oracle = CPython evaluating "
+        "the original comprehension vs the lowered chain; python's own constructor as binder oracle; ValueError for malformed uses",
+        "(a) the original lambda with comprehensions is run by CPython on generated events and the lowered lambda (resolve_syntatic_"
+        "sugar / Select(string) / Select(callable)) is evaluated under the LINQ prelude: equal lists, no comprehension left; "
+        "(b) every positional/keyword split and keyword order for 1-4 field dataclasses and NamedTuples is enumerated and the "
+        "lowered dictionary, evaluated, must equal what python's constructor binds; (c) tuple targets, async for, unknown and "
+        "surplus arguments must raise ValueError.",
+        "Single for clause only; constructor calls that omit or double-bind fields are outside the statement.",
+        "DESIGN.md section 4, C06",
+    ),
 }
 
 NOT_YET = "check not built yet in this round (work in progress; see DESIGN.md section 4 for the planned generator/oracle)"
